@@ -63,7 +63,18 @@ func (p pathSpec) mkPath(enc string) *pb.Path {
 	return out
 }
 
-func ival(v int64) *pb.TypedValue { return &pb.TypedValue{Value: &pb.TypedValue_IntVal{IntVal: v}} }
+// ival builds the value of an update. 1001 and 1002 stand for two decimals
+// that differ numerically by less than float32 resolution and are encoded
+// with different precision (16777216 and 16777217.0).
+func ival(v int64) *pb.TypedValue {
+	switch v {
+	case 1001:
+		return &pb.TypedValue{Value: &pb.TypedValue_DecimalVal{DecimalVal: &pb.Decimal64{Digits: 16777216, Precision: 0}}}
+	case 1002:
+		return &pb.TypedValue{Value: &pb.TypedValue_DecimalVal{DecimalVal: &pb.Decimal64{Digits: 167772170, Precision: 1}}}
+	}
+	return &pb.TypedValue{Value: &pb.TypedValue_IntVal{IntVal: v}}
+}
 
 type updSpec struct {
 	p   pathSpec
